@@ -42,6 +42,7 @@ func init() {
 type c09Inst interface {
 	Feed(p []byte) (out []byte, err error, meta string)
 	Meta() string // the receiver's metadata as it reads now
+	Keep() func() string // what an application keeps of the last decode (a copy of the struct, the object Packet() returned): rendered again later
 	Head(p []byte) bool
 	Tail(m bool, p []byte) bool
 	Retained() ([][]byte, bool)
@@ -66,6 +67,7 @@ type instH264 struct{ p *codecs.H264Packet }
 
 func (i instH264) Feed(p []byte) ([]byte, error, string) { o, e := i.p.Unmarshal(p); return o, e, "" }
 func (i instH264) Meta() string                          { return "" }
+func (i instH264) Keep() func() string                   { return func() string { return "" } }
 func (i instH264) Head(p []byte) bool                    { return i.p.IsPartitionHead(p) }
 func (i instH264) Tail(m bool, p []byte) bool            { return i.p.IsPartitionTail(m, p) }
 func (i instH264) Retained() ([][]byte, bool)            { return hookRetainedH264Packet(i.p) }
@@ -77,6 +79,7 @@ func (i instAV1D) Feed(p []byte) ([]byte, error, string) {
 	return o, e, i.Meta()
 }
 func (i instAV1D) Meta() string               { return fmt.Sprintf("Z%v Y%v N%v", i.p.Z, i.p.Y, i.p.N) }
+func (i instAV1D) Keep() func() string        { m := i.Meta(); return func() string { return m } }
 func (i instAV1D) Head(p []byte) bool         { return i.p.IsPartitionHead(p) }
 func (i instAV1D) Tail(m bool, p []byte) bool { return i.p.IsPartitionTail(m, p) }
 func (i instAV1D) Retained() ([][]byte, bool) { return hookRetainedAV1(i.p) }
@@ -99,6 +102,7 @@ func (i *instAV1P) Feed(p []byte) ([]byte, error, string) {
 	return o, e2, fmt.Sprint(len(obus), n)
 }
 func (i *instAV1P) Meta() string               { return "" }
+func (i *instAV1P) Keep() func() string        { return func() string { return "" } }
 func (i *instAV1P) Head(p []byte) bool         { return true }
 func (i *instAV1P) Tail(m bool, p []byte) bool { return m }
 func (i *instAV1P) Retained() ([][]byte, bool) { return nil, false }
@@ -113,6 +117,7 @@ func (i instVP8) Meta() string {
 	v := i.p
 	return fmt.Sprintf("X%d N%d S%d PID%d I%d L%d T%d K%d pic%d tl0 %d tid%d y%d key%d pl%s", v.X, v.N, v.S, v.PID, v.I, v.L, v.T, v.K, v.PictureID, v.TL0PICIDX, v.TID, v.Y, v.KEYIDX, fw.Hex(v.Payload))
 }
+func (i instVP8) Keep() func() string        { cp := *i.p; return instVP8{&cp}.Meta }
 func (i instVP8) Head(p []byte) bool         { return i.p.IsPartitionHead(p) }
 func (i instVP8) Tail(m bool, p []byte) bool { return i.p.IsPartitionTail(m, p) }
 func (i instVP8) Retained() ([][]byte, bool) { return nil, false }
@@ -128,6 +133,7 @@ func (i instVP9) Meta() string {
 	return fmt.Sprintf("I%v P%v L%v F%v B%v E%v V%v Z%v pic%d tid%d U%v sid%d D%v pdiff%v tl0 %d NS%d Y%v G%v NG%d W%v H%v pgtid%v pgu%v pgpdiff%v pl%s",
 		v.I, v.P, v.L, v.F, v.B, v.E, v.V, v.Z, v.PictureID, v.TID, v.U, v.SID, v.D, v.PDiff, v.TL0PICIDX, v.NS, v.Y, v.G, v.NG, v.Width, v.Height, v.PGTID, v.PGU, v.PGPDiff, fw.Hex(v.Payload))
 }
+func (i instVP9) Keep() func() string        { cp := *i.p; return instVP9{&cp}.Meta }
 func (i instVP9) Head(p []byte) bool         { return i.p.IsPartitionHead(p) }
 func (i instVP9) Tail(m bool, p []byte) bool { return i.p.IsPartitionTail(m, p) }
 func (i instVP9) Retained() ([][]byte, bool) { return nil, false }
@@ -179,9 +185,15 @@ func (i instH265) Feed(p []byte) ([]byte, error, string) {
 	o, e := i.p.Unmarshal(p)
 	return o, e, i.Meta()
 }
-func (i instH265) Meta() string {
+func (i instH265) Keep() func() string {
+	kept := i.p.Packet() // the object the application was handed
+	return func() string { return h265Render(kept) }
+}
+func (i instH265) Meta() string { return h265Render(i.p.Packet()) }
+
+func h265Render(pkt any) string {
 	m := "none"
-	switch v := i.p.Packet().(type) {
+	switch v := pkt.(type) {
 	case *codecs.H265SingleNALUnitPacket:
 		m = metaSingle(v)
 	case *codecs.H265AggregationPacket:
@@ -223,6 +235,10 @@ type instForm struct {
 }
 
 func (i instForm) Meta() string { return i.meta() }
+func (i instForm) Keep() func() string {
+	m := i.meta() // the per-form structs hand out their fields through accessors only: what was read is kept as read
+	return func() string { return m }
+}
 
 func (i instForm) Feed(p []byte) ([]byte, error, string) { return i.feed(p) }
 func (i instForm) Head(p []byte) bool                    { return (&codecs.H265Packet{}).IsPartitionHead(p) }
@@ -236,6 +252,7 @@ func (i instOpus) Feed(p []byte) ([]byte, error, string) {
 	return o, e, i.Meta()
 }
 func (i instOpus) Meta() string               { return fw.Hex(i.p.Payload) }
+func (i instOpus) Keep() func() string        { cp := *i.p; return instOpus{&cp}.Meta }
 func (i instOpus) Head(p []byte) bool         { return i.p.IsPartitionHead(p) }
 func (i instOpus) Tail(m bool, p []byte) bool { return i.p.IsPartitionTail(m, p) }
 func (i instOpus) Retained() ([][]byte, bool) { return nil, false }
@@ -304,6 +321,7 @@ type c09Session struct {
 	accepted  int
 	outcomes  []byte
 	feeds     int
+	kp        keeper
 	release   []func() // write-protected inputs are handed back when the session ends
 }
 
@@ -505,6 +523,15 @@ func (s *c09Session) feed(c *fw.Ctx, p []byte, r *fw.Rand) bool {
 			inB[k] = ^inB[k]
 		}
 		c.Count("scribble_twin_steps_equal", 1)
+	}
+	// what earlier calls returned is the caller's: the bytes and the decoded object stay what they were, whatever is decoded next
+	if errA == nil && len(s.kp.items) < 64 {
+		s.kp.add(fmt.Sprintf("the bytes returned by Unmarshal call %d on this receiver", s.feeds), outA)
+		s.kp.addMeta(fmt.Sprintf("the decoded packet kept after Unmarshal call %d on this receiver", s.feeds), s.a.Keep())
+	}
+	if what, ch := s.kp.changed(); ch {
+		c.Fail("C09/"+name+"/earlier-result-changed-by-a-later-call", "a later call on the receiver changed "+what, wit())
+		return false
 	}
 	runtime.KeepAlive(s.keepAlive)
 	return true
